@@ -48,10 +48,8 @@ func rulesC03(c *Ctx) {
 	}
 	impls := c.P.Implementers(iface)
 	var names []string
-	implSet := map[*types.Named]bool{}
 	for _, n := range impls {
 		names = append(names, implName(n))
-		implSet[n] = true
 	}
 	c.Note("Filespace implementers: %s", strings.Join(names, ", "))
 	c.Stats["implementers"] = len(impls)
@@ -59,218 +57,7 @@ func rulesC03(c *Ctx) {
 		c.Bad("anchor", "Filespace implementers", 0, fmt.Sprintf("only %d implementers of filesystem.Filespace found (7 on the reference tree): %v", len(impls), names))
 	}
 
-	isImplType := func(t types.Type) bool {
-		if pt, ok := t.(*types.Pointer); ok {
-			t = pt.Elem()
-		}
-		n, ok := t.(*types.Named)
-		return ok && implSet[n]
-	}
-	returnsFilespace := func(f *ssa.Function) bool {
-		res := f.Signature.Results()
-		for i := 0; i < res.Len(); i++ {
-			t := res.At(i).Type()
-			if isImplType(t) {
-				return true
-			}
-			if n, ok := t.(*types.Named); ok && n.Obj().Name() == "Filespace" && n.Obj().Pkg() != nil && n.Obj().Pkg().Path() == modPath+"/filesystem" {
-				return true
-			}
-		}
-		return false
-	}
-
-	// constructor summaries: does parameter i of ctor reach the object's string
-	// fields only through the reducer?
-	ctorCache := map[string]string{}
-	ctorSanitises := func(ctor *ssa.Function, argIdx int) (bool, string) {
-		key := fmt.Sprintf("%s#%d", qualName(ctor), argIdx)
-		if v, ok := ctorCache[key]; ok {
-			return v == "", v
-		}
-		why := ""
-		var param *ssa.Parameter
-		pi := argIdx
-		if ctor.Signature.Recv() != nil {
-			pi++
-		}
-		if pi < len(ctor.Params) {
-			param = ctor.Params[pi]
-		}
-		if param == nil || ctor.Blocks == nil {
-			why = "constructor body not available"
-		} else {
-			n := 0
-			for _, u := range sinkUses(ctor) {
-				for _, part := range u.Parts {
-					for _, l := range part {
-						if l.Param == param {
-							n++
-							if l.State != "reduced" {
-								why = fmt.Sprintf("%s hands its parameter %s on %s to %s", fname(ctor), param.Name(), l.State, u.SinkName)
-							}
-						}
-					}
-				}
-			}
-			if n == 0 && why == "" {
-				why = fmt.Sprintf("%s does not use parameter %s in any way the analysis recognises", fname(ctor), param.Name())
-			}
-		}
-		ctorCache[key] = why
-		return why == "", why
-	}
-
-	nR1, nR2, nR4 := 0, 0, 0
-	for _, T := range impls {
-		methods := c.P.MethodsOf(T, iface)
-		var mnames []string
-		for m := range methods {
-			mnames = append(mnames, m)
-		}
-		sort.Strings(mnames)
-		if len(mnames) != iface.NumMethods() {
-			c.Bad("anchor", implName(T)+" methods", 0, fmt.Sprintf("resolved %d of %d interface methods", len(mnames), iface.NumMethods()))
-		}
-		for _, mn := range mnames {
-			f := methods[mn]
-			if f.Blocks == nil {
-				c.Bad("anchor", implName(T)+"."+mn, 0, "method has no body")
-				continue
-			}
-			uses := sinkUses(f)
-			for _, p := range stringParams(f) {
-				con := fmt.Sprintf("%s.%s(%s)", implName(T), mn, p.Name())
-				nR1++
-				var mine []SinkUse
-				for _, u := range uses {
-					for _, part := range u.Parts {
-						for _, l := range part {
-							if l.Param == p {
-								mine = append(mine, u)
-							}
-						}
-					}
-				}
-				// ---- R1: rebasing requires reduction -------------------------
-				bad := ""
-				var badPos token.Pos
-				rebased, forwarded := 0, 0
-				for _, u := range mine {
-					if isRebased(u) {
-						rebased++
-					} else {
-						forwarded++
-					}
-					for _, l := range rebaseViolations(u) {
-						if l.Param == p {
-							bad = fmt.Sprintf("parameter %s reaches %s as %s behind a non-constant prefix [%s]", p.Name(), u.SinkName, l.State, describeParts(u))
-							badPos = u.Pos()
-						}
-					}
-				}
-				if bad != "" {
-					c.Bad("R1", con, badPos, bad+" — view.Op(\"../x\") addresses a node outside the view's root")
-				} else if len(mine) == 0 {
-					c.OK("R1", con, f.Pos(), "parameter reaches no call argument or field store (operation refused or answered without touching storage)")
-				} else {
-					c.OK("R1", con, f.Pos(), fmt.Sprintf("%d rebased use(s) all reduced with the error checked, %d forwarded unchanged/cleaned", rebased, forwarded))
-				}
-
-				// ---- R4: OS sinks are rooted -----------------------------------
-				for _, u := range mine {
-					if u.Call == nil || !isOSSink(u.Call) {
-						continue
-					}
-					nR4++
-					con4 := fmt.Sprintf("%s.%s(%s) -> %s", implName(T), mn, p.Name(), lastSeg(u.SinkName))
-					ok := true
-					why := ""
-					if len(u.Parts) < 2 {
-						ok, why = false, "the path is not rebased on the receiver's root"
-					} else {
-						rooted := false
-						for _, l := range u.Parts[0] {
-							if l.Origin.Kind == "field" {
-								rooted = true
-							}
-						}
-						if !rooted {
-							ok, why = false, "the left-most part of the path is not a field of the receiver"
-						}
-					}
-					for _, part := range u.Parts {
-						for _, l := range part {
-							if l.Param != nil && l.State != "reduced" {
-								ok, why = false, fmt.Sprintf("parameter %s reaches the OS %s", l.Param.Name(), l.State)
-							}
-						}
-					}
-					c.Check(ok, "R4", con4, u.Pos(), "root field + reduced parameter ["+describeParts(u)+"]", why+" ["+describeParts(u)+"] — the host file system is addressed outside the filespace root")
-				}
-			}
-
-			// ---- R2: child-view bases -------------------------------------------
-			if mn == "Filespace" {
-				for _, p := range stringParams(f) {
-					con := fmt.Sprintf("%s.Filespace(%s) child base", implName(T), p.Name())
-					nR2++
-					ok := true
-					why := ""
-					detail := []string{}
-					found := 0
-					for _, u := range uses {
-						derives := false
-						var leaf PartLeaf
-						for _, part := range u.Parts {
-							for _, l := range part {
-								if l.Param == p {
-									derives, leaf = true, l
-								}
-							}
-						}
-						if !derives {
-							continue
-						}
-						switch {
-						case u.Call != nil && u.Call.Method != nil && u.Call.Method.Name() == "Filespace":
-							found++
-							detail = append(detail, "forwarded to the inner filespace's Filespace()")
-							if isRebased(u) && leaf.State != "reduced" {
-								ok, why = false, "rebased un-reduced argument forwarded"
-							}
-						case u.Call != nil && u.Call.Static != nil && inModule(u.Call.Static) && returnsFilespace(u.Call.Static):
-							found++
-							if leaf.State == "reduced" {
-								detail = append(detail, "reduced before "+lastSeg(u.SinkName))
-							} else if isRebased(u) {
-								ok, why = false, fmt.Sprintf("%s joined behind the view's base is passed to %s; reducing the joined path afterwards cannot detect a climb over the view's own root", leaf.State, lastSeg(u.SinkName))
-							} else if s, w := ctorSanitises(u.Call.Static, u.ArgIdx); s {
-								detail = append(detail, "reduced by constructor "+lastSeg(u.SinkName))
-							} else {
-								ok, why = false, "child base is "+leaf.State+" and the constructor does not reduce it: "+w
-							}
-						case u.Store != nil:
-							if fa, isFA := u.Store.Addr.(*ssa.FieldAddr); isFA && isImplType(fa.X.Type()) {
-								found++
-								if leaf.State == "reduced" {
-									detail = append(detail, "reduced before the base-path field store")
-								} else {
-									ok, why = false, "child base field is set from the "+leaf.State+" argument"
-								}
-							}
-						}
-					}
-					if found == 0 {
-						// a disk-style check (IsDir etc.) does not build a view; look for any
-						// construction at all
-						ok, why = false, "cannot see how the argument becomes the child's base (no constructor call, base-field store or forwarding found)"
-					}
-					c.Check(ok, "R2", con, f.Pos(), strings.Join(detail, "; "), why+" — view.Filespace(\"../x\") yields a view rooted outside its parent")
-				}
-			}
-		}
-	}
+	nR1, nR2, nR4 := viewConfinementRules(c, iface, impls, impls, "R1", "R2", "R4")
 	c.Floor("R1", nR1, 7*19)
 	c.Floor("R2", nR2, 7)
 	c.Floor("R4", nR4, 18)
@@ -441,4 +228,227 @@ func blockAlwaysReturns(b *ssa.BasicBlock) bool {
 		return true
 	}
 	return rec(b)
+}
+
+// viewConfinementRules runs R1/R2/R4 for the implementers in `targets`
+// (allImpls is the full implementer set, used to recognise constructors).
+func viewConfinementRules(c *Ctx, iface *types.Interface, allImpls, targets []*types.Named, r1, r2, r4 string) (int, int, int) {
+	implSet := map[*types.Named]bool{}
+	for _, n := range allImpls {
+		implSet[n] = true
+	}
+	impls := targets
+	isImplType := func(t types.Type) bool {
+		if pt, ok := t.(*types.Pointer); ok {
+			t = pt.Elem()
+		}
+		n, ok := t.(*types.Named)
+		return ok && implSet[n]
+	}
+	returnsFilespace := func(f *ssa.Function) bool {
+		res := f.Signature.Results()
+		for i := 0; i < res.Len(); i++ {
+			t := res.At(i).Type()
+			if isImplType(t) {
+				return true
+			}
+			if n, ok := t.(*types.Named); ok && n.Obj().Name() == "Filespace" && n.Obj().Pkg() != nil && n.Obj().Pkg().Path() == modPath+"/filesystem" {
+				return true
+			}
+		}
+		return false
+	}
+
+	// constructor summaries: does parameter i of ctor reach the object's string
+	// fields only through the reducer?
+	ctorCache := map[string]string{}
+	ctorSanitises := func(ctor *ssa.Function, argIdx int) (bool, string) {
+		key := fmt.Sprintf("%s#%d", qualName(ctor), argIdx)
+		if v, ok := ctorCache[key]; ok {
+			return v == "", v
+		}
+		why := ""
+		var param *ssa.Parameter
+		pi := argIdx
+		if ctor.Signature.Recv() != nil {
+			pi++
+		}
+		if pi < len(ctor.Params) {
+			param = ctor.Params[pi]
+		}
+		if param == nil || ctor.Blocks == nil {
+			why = "constructor body not available"
+		} else {
+			n := 0
+			for _, u := range sinkUses(ctor) {
+				for _, part := range u.Parts {
+					for _, l := range part {
+						if l.Param == param {
+							n++
+							if l.State != "reduced" {
+								why = fmt.Sprintf("%s hands its parameter %s on %s to %s", fname(ctor), param.Name(), l.State, u.SinkName)
+							}
+						}
+					}
+				}
+			}
+			if n == 0 && why == "" {
+				why = fmt.Sprintf("%s does not use parameter %s in any way the analysis recognises", fname(ctor), param.Name())
+			}
+		}
+		ctorCache[key] = why
+		return why == "", why
+	}
+
+	nR1, nR2, nR4 := 0, 0, 0
+	for _, T := range impls {
+		methods := c.P.MethodsOf(T, iface)
+		var mnames []string
+		for m := range methods {
+			mnames = append(mnames, m)
+		}
+		sort.Strings(mnames)
+		if len(mnames) != iface.NumMethods() {
+			c.Bad("anchor", implName(T)+" methods", 0, fmt.Sprintf("resolved %d of %d interface methods", len(mnames), iface.NumMethods()))
+		}
+		for _, mn := range mnames {
+			f := methods[mn]
+			if f.Blocks == nil {
+				c.Bad("anchor", implName(T)+"."+mn, 0, "method has no body")
+				continue
+			}
+			uses := sinkUses(f)
+			for _, p := range stringParams(f) {
+				con := fmt.Sprintf("%s.%s(%s)", implName(T), mn, p.Name())
+				nR1++
+				var mine []SinkUse
+				for _, u := range uses {
+					for _, part := range u.Parts {
+						for _, l := range part {
+							if l.Param == p {
+								mine = append(mine, u)
+							}
+						}
+					}
+				}
+				// ---- R1: rebasing requires reduction -------------------------
+				bad := ""
+				var badPos token.Pos
+				rebased, forwarded := 0, 0
+				for _, u := range mine {
+					if isRebased(u) {
+						rebased++
+					} else {
+						forwarded++
+					}
+					for _, l := range rebaseViolations(u) {
+						if l.Param == p {
+							bad = fmt.Sprintf("parameter %s reaches %s as %s behind a non-constant prefix [%s]", p.Name(), u.SinkName, l.State, describeParts(u))
+							badPos = u.Pos()
+						}
+					}
+				}
+				if bad != "" {
+					c.Bad(r1, con, badPos, bad+" — view.Op(\"../x\") addresses a node outside the view's root")
+				} else if len(mine) == 0 {
+					c.OK(r1, con, f.Pos(), "parameter reaches no call argument or field store (operation refused or answered without touching storage)")
+				} else {
+					c.OK(r1, con, f.Pos(), fmt.Sprintf("%d rebased use(s) all reduced with the error checked, %d forwarded unchanged/cleaned", rebased, forwarded))
+				}
+
+				// ---- R4: OS sinks are rooted -----------------------------------
+				for _, u := range mine {
+					if u.Call == nil || !isOSSink(u.Call) {
+						continue
+					}
+					nR4++
+					con4 := fmt.Sprintf("%s.%s(%s) -> %s", implName(T), mn, p.Name(), lastSeg(u.SinkName))
+					ok := true
+					why := ""
+					if len(u.Parts) < 2 {
+						ok, why = false, "the path is not rebased on the receiver's root"
+					} else {
+						rooted := false
+						for _, l := range u.Parts[0] {
+							if l.Origin.Kind == "field" {
+								rooted = true
+							}
+						}
+						if !rooted {
+							ok, why = false, "the left-most part of the path is not a field of the receiver"
+						}
+					}
+					for _, part := range u.Parts {
+						for _, l := range part {
+							if l.Param != nil && l.State != "reduced" {
+								ok, why = false, fmt.Sprintf("parameter %s reaches the OS %s", l.Param.Name(), l.State)
+							}
+						}
+					}
+					c.Check(ok, r4, con4, u.Pos(), "root field + reduced parameter ["+describeParts(u)+"]", why+" ["+describeParts(u)+"] — the host file system is addressed outside the filespace root")
+				}
+			}
+
+			// ---- R2: child-view bases -------------------------------------------
+			if mn == "Filespace" {
+				for _, p := range stringParams(f) {
+					con := fmt.Sprintf("%s.Filespace(%s) child base", implName(T), p.Name())
+					nR2++
+					ok := true
+					why := ""
+					detail := []string{}
+					found := 0
+					for _, u := range uses {
+						derives := false
+						var leaf PartLeaf
+						for _, part := range u.Parts {
+							for _, l := range part {
+								if l.Param == p {
+									derives, leaf = true, l
+								}
+							}
+						}
+						if !derives {
+							continue
+						}
+						switch {
+						case u.Call != nil && u.Call.Method != nil && u.Call.Method.Name() == "Filespace":
+							found++
+							detail = append(detail, "forwarded to the inner filespace's Filespace()")
+							if isRebased(u) && leaf.State != "reduced" {
+								ok, why = false, "rebased un-reduced argument forwarded"
+							}
+						case u.Call != nil && u.Call.Static != nil && inModule(u.Call.Static) && returnsFilespace(u.Call.Static):
+							found++
+							if leaf.State == "reduced" {
+								detail = append(detail, "reduced before "+lastSeg(u.SinkName))
+							} else if isRebased(u) {
+								ok, why = false, fmt.Sprintf("%s joined behind the view's base is passed to %s; reducing the joined path afterwards cannot detect a climb over the view's own root", leaf.State, lastSeg(u.SinkName))
+							} else if s, w := ctorSanitises(u.Call.Static, u.ArgIdx); s {
+								detail = append(detail, "reduced by constructor "+lastSeg(u.SinkName))
+							} else {
+								ok, why = false, "child base is "+leaf.State+" and the constructor does not reduce it: "+w
+							}
+						case u.Store != nil:
+							if fa, isFA := u.Store.Addr.(*ssa.FieldAddr); isFA && isImplType(fa.X.Type()) {
+								found++
+								if leaf.State == "reduced" {
+									detail = append(detail, "reduced before the base-path field store")
+								} else {
+									ok, why = false, "child base field is set from the "+leaf.State+" argument"
+								}
+							}
+						}
+					}
+					if found == 0 {
+						// a disk-style check (IsDir etc.) does not build a view; look for any
+						// construction at all
+						ok, why = false, "cannot see how the argument becomes the child's base (no constructor call, base-field store or forwarding found)"
+					}
+					c.Check(ok, r2, con, f.Pos(), strings.Join(detail, "; "), why+" — view.Filespace(\"../x\") yields a view rooted outside its parent")
+				}
+			}
+		}
+	}
+	return nR1, nR2, nR4
 }
